@@ -132,6 +132,11 @@ struct Result {
   Switch* switch_log = nullptr;     // points into runtime memory (or Config::sw_buf), valid until next run()
   volatile int cur_task = -1;       // who held the baton last (for crash reports)
   volatile int cur_op = -1;
+  // filled when a run ends abnormally (deadlock, budget): what every task was doing
+  int end_state[kMaxTasks] = {};    // 0 new, 1 runnable, 2 blocked, 3 stalled, 4 done
+  int end_op[kMaxTasks] = {};
+  uintptr_t end_blocked_on[kMaxTasks] = {};
+  uint32_t end_blocked_pc[kMaxTasks] = {};
 };
 
 typedef void (*TaskBody)(int task, void* arg);
